@@ -15,21 +15,37 @@ use crate::rng::{det_hash, Hash64, Src};
 use crate::runner::guarded;
 use crate::workload::{draw_spec, gen_drawable, gen_knobs, DrawableSpec, Path};
 use embedded_graphics::mock_display::{ColorMapping, MockDisplay};
-use embedded_graphics::pixelcolor::{BinaryColor, Gray2, Gray4, Gray8, Rgb565, Rgb888};
+use embedded_graphics::pixelcolor::{BinaryColor, Bgr555, Bgr565, Bgr888, Gray2, Gray4, Gray8, Rgb332, Rgb444, Rgb555, Rgb565, Rgb888};
 use embedded_graphics::prelude::*;
 use embedded_graphics::primitives::Rectangle;
 use embedded_graphics::Pixel;
 
 pub struct C20;
 
-pub const KINDS6: [ColorKind; 6] = [
+/// every colour type that has a MockDisplay character set (`ColorMapping`); the first six are
+/// the original menu, the rest were appended so old tapes keep their meaning
+pub const KINDS6: [ColorKind; 12] = [
     ColorKind::Binary,
     ColorKind::Gray2,
     ColorKind::Gray4,
     ColorKind::Gray8,
     ColorKind::Rgb565,
     ColorKind::Rgb888,
+    ColorKind::Rgb332,
+    ColorKind::Rgb444,
+    ColorKind::Rgb555,
+    ColorKind::Bgr555,
+    ColorKind::Bgr565,
+    ColorKind::Bgr888,
 ];
+
+/// K R G B Y M C W from the documented channel layout: (red shift, red bits, green .., blue ..)
+fn rgb_alphabet(rs: u32, rb: u32, gs: u32, gb: u32, bs: u32, bb: u32) -> Vec<(char, u32)> {
+    let r = ((1u32 << rb) - 1) << rs;
+    let g = ((1u32 << gb) - 1) << gs;
+    let b = ((1u32 << bb) - 1) << bs;
+    vec![('K', 0), ('R', r), ('G', g), ('B', b), ('Y', r | g), ('M', r | b), ('C', g | b), ('W', r | g | b)]
+}
 
 const N: usize = 64;
 
@@ -61,6 +77,12 @@ pub fn alphabet(kind: ColorKind) -> Vec<(char, u32)> {
             ('W', 0xFFFFFF),
         ],
         ColorKind::C32 => vec![],
+        ColorKind::Rgb332 => rgb_alphabet(5, 3, 2, 3, 0, 2),
+        ColorKind::Rgb444 => rgb_alphabet(8, 4, 4, 4, 0, 4),
+        ColorKind::Rgb555 => rgb_alphabet(10, 5, 5, 5, 0, 5),
+        ColorKind::Bgr555 => rgb_alphabet(0, 5, 5, 5, 10, 5),
+        ColorKind::Bgr565 => rgb_alphabet(0, 5, 5, 6, 11, 5),
+        ColorKind::Bgr888 => rgb_alphabet(0, 8, 8, 8, 16, 8),
     }
 }
 
@@ -960,10 +982,10 @@ impl Property for C20 {
         FAULTS
     }
     fn lattice_size(&self) -> u32 {
-        6 * 4
+        12 * 4
     }
     fn lattice_desc(&self) -> &'static str {
-        "colour type (6) x final (allow_overdraw, allow_out_of_bounds_drawing) setting (4)"
+        "colour type (12: every type with a ColorMapping) x final (allow_overdraw, allow_out_of_bounds_drawing) setting (4)"
     }
     fn sub_eval_name(&self) -> &'static str {
         "history_steps_checked"
@@ -981,7 +1003,7 @@ impl Property for C20 {
     }
 
     fn gen(&self, src: &mut Src) -> Scenario {
-        let kind = KINDS6[src.draw(6) as usize];
+        let kind = KINDS6[src.draw(KINDS6.len() as u32) as usize];
         let n = 1 + src.draw(if crate::prop::deep() { 20 } else { 10 });
         let mut steps = Vec::new();
         for si in 0..n {
@@ -1104,6 +1126,12 @@ impl Property for C20 {
             ColorKind::Gray4 => run_typed::<Gray4>(sc, opts),
             ColorKind::Gray8 => run_typed::<Gray8>(sc, opts),
             ColorKind::Rgb565 => run_typed::<Rgb565>(sc, opts),
+            ColorKind::Rgb332 => run_typed::<Rgb332>(sc, opts),
+            ColorKind::Rgb444 => run_typed::<Rgb444>(sc, opts),
+            ColorKind::Rgb555 => run_typed::<Rgb555>(sc, opts),
+            ColorKind::Bgr555 => run_typed::<Bgr555>(sc, opts),
+            ColorKind::Bgr565 => run_typed::<Bgr565>(sc, opts),
+            ColorKind::Bgr888 => run_typed::<Bgr888>(sc, opts),
             _ => run_typed::<Rgb888>(sc, opts),
         }
     }
